@@ -1,7 +1,9 @@
 package e1
 
 import (
+	"encoding/json"
 	"fmt"
+	"os"
 	"sync"
 	"sync/atomic"
 	"time"
@@ -58,6 +60,9 @@ func names(cfg *BFSConfig, path []int) []string {
 
 // BFS explores all states reachable from New() and reports violations into rep.
 func BFS(cfg BFSConfig, rep *vk.Report) BFSResult {
+	if ops, ok := replayOps(); ok {
+		return replayBFS(cfg, rep, ops)
+	}
 	res := BFSResult{Exhaustive: true}
 	seen := vk.NewSet()
 	init := cfg.New()
@@ -273,4 +278,77 @@ func SeqsShard(n, d int, sh vk.Shard, deadline time.Time, f func(seq []int)) (co
 		rec(pre)
 	}
 	return !stop
+}
+
+
+// replayOps returns the operation list of the replay file named by VERIF_REPLAY, if any.
+func replayOps() ([]string, bool) {
+	f := os.Getenv("VERIF_REPLAY")
+	if f == "" {
+		return nil, false
+	}
+	b, err := os.ReadFile(f)
+	if err != nil {
+		return nil, false
+	}
+	var body struct {
+		Replay struct {
+			Ops []string `json:"ops"`
+		} `json:"replay"`
+	}
+	if json.Unmarshal(b, &body) != nil || len(body.Replay.Ops) == 0 {
+		return nil, false
+	}
+	return body.Replay.Ops, true
+}
+
+// replayBFS re-executes exactly one recorded operation list five times (no search); the observations must be identical.
+func replayBFS(cfg BFSConfig, rep *vk.Report, ops []string) BFSResult {
+	res := BFSResult{Exhaustive: true, States: 1}
+	idx := map[string]int{}
+	for i := 0; i < cfg.NumOps; i++ {
+		idx[cfg.OpName(i)] = i
+	}
+	var path []int
+	for _, o := range ops {
+		i, ok := idx[o]
+		if !ok {
+			return res // not an operation of this system (another range / phase): nothing to replay here
+		}
+		path = append(path, i)
+	}
+	var first string
+	for k := 0; k < 5; k++ {
+		s := cfg.New()
+		outcome := "no violation"
+		for n, o := range path {
+			var v *vk.Violation
+			if p := vk.Recover(func() { v = s.Apply(o) }); p != nil {
+				v = &vk.Violation{Sig: "panic:" + opKind(cfg.OpName(o)), Msg: fmt.Sprintf("panic: %v", p)}
+			}
+			res.Transitions++
+			if v == nil && n == len(path)-1 {
+				if fz, ok := s.(Finalizer); ok {
+					vk.Recover(func() { s.Key() })
+					if p := vk.Recover(func() { v = fz.Final() }); p != nil {
+						v = &vk.Violation{Sig: "panic-final", Msg: fmt.Sprintf("panic: %v", p)}
+					}
+				}
+			}
+			if v != nil {
+				outcome = v.Sig + ": " + v.Msg
+				v.Msg = fmt.Sprintf("replay of %v: %s", ops[:n+1], v.Msg)
+				v.Replay = map[string]any{"ops": ops}
+				rep.Violate(*v)
+				break
+			}
+		}
+		if k == 0 {
+			first = outcome
+			fmt.Printf("replay of %v -> %s\n", ops, outcome)
+		} else if outcome != first {
+			rep.HarnessError("replay diverged: run %d gave %q, first run gave %q", k, outcome, first)
+		}
+	}
+	return res
 }
